@@ -117,6 +117,40 @@ func smallCorpus() []string {
 	return out
 }
 
+// seedPrograms are one-construct programs; faultCorpus derives from them the
+// single-fault variants (an illegal character, a truncation) at every token
+// boundary, the inputs on which error paths of the parser run.
+var seedPrograms = []string{
+	"import a from b;", "import {a, b} from c;", "import type t from m;", "import templ t from m;", "import a from b:c:d;", "import @a from b;",
+	"fn main() { let a = 1 + 2 * 3; }", "fn f(a: int, b: str) -> int { a }", "pub fn g() {}", "event fn h() {}",
+	"let x: [int] = [1, 2, 3,];", "type T = { a: int, 'b c': ?str };", "fn main() { if a { b } else if c { d } else { e }; }",
+	"fn main() { match x { 1 | 2 => a, _ => b, }; }", "fn main() { try { a } catch e { b } }", "fn main() { for i in 0..10 { break; continue; } }",
+	"fn main() { while true { loop { return 1; } } }", "fn main() { let o = new { a: 1, \"b\": 2 }; o.a = o[0] as int; }",
+	"fn main() { a(1, b(2),); spawn f(x); x->y; x~>y; -a; !b; ?c; }", "$S = { @setting a: int };", "impl T with { a, b } for $S { fn f() {} }",
+	"#[a, b(c)] fn f() {}", "fn main() { trigger f on minute(1); }", "fn main() { let f = fn(a: int) -> int { a ** 2 }; }",
+	"fn main() { a += 1; a <<= 2; a |= b && c || d ^ e & f; }",
+}
+
+func faultCorpus() []string {
+	var out []string
+	for _, p := range seedPrograms {
+		out = append(out, p)
+		rs := []rune(p)
+		for i := 0; i <= len(rs); i++ {
+			if i > 0 && i < len(rs) && isWordRune(rs[i-1]) && isWordRune(rs[i]) {
+				continue
+			}
+			out = append(out, string(rs[:i])+"§"+string(rs[i:]))
+			out = append(out, string(rs[:i]))
+		}
+	}
+	return out
+}
+
+func isWordRune(r rune) bool {
+	return r == '_' || (r >= 'a' && r <= 'z') || (r >= 'A' && r <= 'Z') || (r >= '0' && r <= '9')
+}
+
 func exampleCorpus(root string) []string {
 	var out []string
 	for _, pat := range []string{"examples/*.hms", "tests/*.hms", "tests/*/*.hms", "test/*.hms"} {
@@ -187,6 +221,12 @@ func replayAll(p *Prog, failed []*Obligation) map[*Obligation]*ReplayResult {
 	for _, t := range smallCorpus() {
 		corpus = append(corpus, t)
 		origin = append(origin, "short-text corpus")
+	}
+	if stages != "lex" {
+		for _, t := range faultCorpus() {
+			corpus = append(corpus, t)
+			origin = append(origin, "single-fault variants of one-construct seed programs")
+		}
 	}
 	for _, t := range exampleCorpus(p.Root) {
 		corpus = append(corpus, t)
